@@ -322,6 +322,17 @@ package table
 //@   ensures result != nil ==> (result.Status == oc.RPKI_VALIDATION_RESULT_TYPE_INVALID <==> len(result.Matched) == 0 && (len(result.UnmatchedAs) != 0 || len(result.UnmatchedLength) != 0))
 //@   ensures result != nil ==> (result.Status == oc.RPKI_VALIDATION_RESULT_TYPE_NOT_FOUND <==> len(result.Matched) == 0 && len(result.UnmatchedAs) == 0 && len(result.UnmatchedLength) == 0)
 
+// from C03: "whatever the arrival order": the order of a destination's route list is produced by the ordered
+// insertion alone - every announced route is placed by insertSort (after the implicit replace of the entry with
+// the same source and path-id), a withdrawal never inserts
+//@ props C03
+//@ func (*destination).Calculate
+//@   requires dest != nil && newPath != nil
+//@   claims at-call at-return
+//@   at-call dest.insertSort( requires called(implicitWithdraw)
+//@   at-return requires !old(newPath.IsWithdraw) ==> called(insertSort)
+//@   at-return requires old(newPath.IsWithdraw) ==> called(explicitWithdraw) && !called(insertSort)
+
 // =============================================================================================
 // C10 — applying policy never changes the route as stored or as seen by any other peer
 // =============================================================================================
